@@ -73,11 +73,14 @@ func (l *Listener) listen() {
 		if l.state.Closing() {
 			break
 		}
-		if l.listener == nil && l.state.Replacing() {
+		// Read the socket once: Replace swaps it while this thread runs, a second
+		// read can find it nil after the check.
+		v := l.listener
+		if v == nil {
 			time.Sleep(time.Millisecond * 30) // Prevent CPU buring loops.
 			continue
 		}
-		c, err := l.listener.Accept()
+		c, err := v.Accept()
 		if err != nil {
 			if l.state.Replacing() {
 				continue
